@@ -43,6 +43,7 @@ type saoWorld struct {
 	longRun   bool
 	exportEvery int
 	grants      map[string]*owner // data id -> read-write grantee
+	reported     []*saotypes.Fault // faults a fishman's report put on record
 	scarce       bool             // only two providers accept orders: selections run out of candidates
 	silent       *Account         // a provider that never completes anything (scarce worlds)
 	granteeWrote []string         // models whose latest accepted update was signed by their grantee
@@ -109,6 +110,12 @@ func (w *saoWorld) setup(accts []*Account) {
 			size = 2000000 // small provider: runs out of capacity
 		}
 		r.AddVstorage(p, size)
+		if i == 4 && w.rng.Intn(3) == 0 {
+			// a provider that keeps almost nothing liquid: renewals for a longer period put it into debt
+			if bal := w.c.App.BankKeeper.GetBalance(w.c.deliverCtx(), p.Addr, Denom).Amount.Int64(); bal > 500 {
+				r.Send(p, w.gateways[0], bal-int64(100+w.rng.Intn(300)))
+			}
+		}
 	}
 	for i := 0; i < 3; i++ {
 		w.owners = append(w.owners, w.mkKeyOwner(accts[9+i], fmt.Sprintf("k%d", i)))
@@ -527,6 +534,24 @@ func (w *saoWorld) faults(mut string) {
 	if len(cands) == 0 {
 		return
 	}
+	if mut == "recover-others" && len(w.reported) > 0 {
+		// an ordinary provider declares, in its own name, the recovery of a fault recorded against ANOTHER provider
+		rf := w.reported[rng.Intn(len(w.reported))]
+		if ord, found := w.c.App.OrderKeeper.GetOrder(w.c.deliverCtx(), rf.OrderId); found {
+			for _, k := range rng.Perm(len(w.providers)) {
+				p := w.providers[k]
+				if k == 0 || p.Bech() == rf.Provider {
+					continue
+				}
+				f := *rf
+				f.CommitId = ord.Commit
+				f.Reporter = p.Bech()
+				w.r.RecoverFaults(p, p.Bech(), []*saotypes.Fault{&f})
+				return
+			}
+		}
+		return
+	}
 	sh := cands[rng.Intn(len(cands))]
 	ord, found := w.c.App.OrderKeeper.GetOrder(w.c.deliverCtx(), sh.OrderId)
 	if !found {
@@ -557,7 +582,10 @@ func (w *saoWorld) faults(mut string) {
 	provider := sh.Sp
 	switch rng.Intn(4) {
 	case 0, 1:
-		w.r.ReportFaults(reporter, provider, []*saotypes.Fault{f, f})
+		if res := w.r.ReportFaults(reporter, provider, []*saotypes.Fault{f, f}); res.Class == "ok" && reporter == fishman && mut == "" {
+			cp := *f
+			w.reported = append(w.reported, &cp)
+		}
 	case 2:
 		// the accused declares recovery (commit must match for recovery)
 		f.CommitId = ord.Commit
@@ -642,10 +670,10 @@ func runSaoHistory(r *Recorder, rng *rand.Rand, accts []*Account, nOps int, long
 				w.cancel(weighted(rng, []string{"attacker-own-node", "attacker-names-gateway", "other-gateway"}, 30))
 			case x < 85:
 				w.ready(weighted(rng, []string{"attacker"}, 20))
-			case x < 91:
+			case x < 90:
 				w.migrate(weighted(rng, []string{"impersonate"}, 15))
-			case x < 94:
-				w.faults(weighted(rng, []string{"ordinary-node", "non-node", "wrong-order", "wrong-data", "wrong-shard", "wrong-provider"}, 35))
+			case x < 95:
+				w.faults(weighted(rng, []string{"ordinary-node", "non-node", "wrong-order", "wrong-data", "wrong-shard", "wrong-provider", "recover-others", "recover-others"}, 45))
 			case x < 97:
 				r.ClaimReward(w.providers[rng.Intn(len(w.providers))])
 			default:
